@@ -73,7 +73,24 @@ def coverage():
         out.append("| %s | %s | %s | %s | %s | %s | %s |" % (e["property_id"], e.get("tier"), c.get("evaluations"), c.get("distinct_nontrivial"), c.get("distinct_outcomes"), c.get("exhaustive"), e.get("wall_s")))
     return "\n".join(out)
 
-gen = {"fixes": fixes, "findings": findings, "seeds": seeds, "reverts": reverts, "coverage": coverage}
+def rules():
+    out = []
+    for p in sorted(glob.glob(os.path.join(here, "evidence", "C*.json"))):
+        e = json.load(open(p))
+        c = e["coverage"]
+        out.append("**%s** (%s). *Rule:* %s" % (e["property_id"], e["level"], c.get("rule", "")))
+        out.append("")
+        out.append("*Bound completed by the committed %s run:* %s" % (e.get("tier"), c.get("completed_bound", "")))
+        if c.get("distinct_behaviours_estimate"):
+            out.append("")
+            out.append("*Distinct observed behaviours (estimate):* %s over %s observations." % (c["distinct_behaviours_estimate"], c.get("observations")))
+        if e.get("assumptions"):
+            out.append("")
+            out.append("*Trusted / assumed:* " + "; ".join(e["assumptions"]))
+        out.append("")
+    return "\n".join(out)
+
+gen = {"rules": rules, "fixes": fixes, "findings": findings, "seeds": seeds, "reverts": reverts, "coverage": coverage}
 p = os.path.join(here, "DESIGN.md")
 s = open(p).read()
 for k, f in gen.items():
